@@ -51,6 +51,9 @@ class Contract:
         self.use: list | None = g('use', None)      # restrict which contracts are used modularly (None = all)
         self.no_use: list = g('no_use', [])
         self.note: str = g('note', '')
+        # binds = {'result._ctx': 'self'}: at modular call sites the named field of the fresh result *is* the named
+        # input object (object identity cannot be assumed as a formula); verified as obligation #post[bind:<path>]
+        self.binds: dict = g('binds', {})
         self.pre = ci.methods.get('pre')
         self.post = ci.methods.get('post')
         self.raises = ci.methods.get('raises')
@@ -235,6 +238,11 @@ class Explorer:
         else:
             rt = self.types.parse_str(c.returns, info.module.name, info.cls)
             result = P.fresh(rt, P.fresh_name(short))
+        for path, src in c.binds.items():
+            base, _, fld = path.rpartition('.')
+            env = dict(bound, result=result)
+            tgt = self._resolve_path(P, env, base)
+            P.write(tgt.fields, fld, self._resolve_path(P, env, src))
         if c.post is not None:
             extra = {'result': result}
             if needs_old:
@@ -382,6 +390,10 @@ class Explorer:
                 extra = {'result': result, 'old': SObj(None, old.fields, 'old')}
                 for k, cond in self._call_spec(P, c.post, bound, extra).items():
                     P.oblige(f'{short}#post[{k}]', 'post', P.truthy(cond))
+            for path, src in c.binds.items():
+                env = dict(bound, result=result)
+                P.oblige(f'{short}#post[bind:{path}]', 'post',
+                         P.truthy(P.identical(self._resolve_path(P, env, path), self._resolve_path(P, env, src))))
             for callee, cnt in c.opts.get('call_counts', {}).items():
                 P.oblige(f'{short}#calls[{callee}=={cnt}]', 'calls', P.modular_calls.get(callee, 0) == cnt)
             # frame: inputs unchanged unless listed in modifies
